@@ -1,6 +1,7 @@
 pub mod containers;
 pub mod disasm;
 pub mod json;
+pub mod lift;
 pub mod pipeline;
 pub mod types;
 pub mod value;
@@ -21,6 +22,8 @@ pub fn generate(family: &str, seed: u64, n: usize, tier: &str, emit: &mut dyn Fn
         "merge" => types::generate_merge(seed, n, tier, emit),
         "unify" => types::generate_unify(seed, n, tier, emit),
         "truth" => types::generate_truth(seed, n, tier, emit),
+        "hash" => lift::generate_hash(seed, n, tier, emit),
+        "lift" => lift::generate_lift(seed, n, tier, emit),
         "watchdog" => watchdog::generate(seed, n, tier, emit),
         "fold" => value::generate_fold(seed, n, tier, emit),
         "size" => value::generate_size(seed, n, tier, emit),
@@ -42,6 +45,8 @@ pub fn eval(family: &str, payload: &str) -> String {
         "merge" => types::eval_merge(payload),
         "unify" => types::eval_unify(payload),
         "truth" => types::eval_truth(payload),
+        "hash" => lift::eval_hash(payload),
+        "lift" => lift::eval_lift(payload),
         "watchdog" => watchdog::eval(payload),
         "fold" => value::eval_fold(payload),
         "size" => value::eval_size(payload),
